@@ -215,6 +215,8 @@ def _pre_dyn(npre, s0, s1, s2, o0, o1, o2, ms):
         ok = ok and ms == 0
     if P("o0") is not None:
         ok = ok and o0 == P("o0")
+    if P("o0r") is not None:
+        ok = ok and P("o0r")[0] <= o0 <= P("o0r")[1]
     return ok
 
 
@@ -311,7 +313,7 @@ def h_dyn(npre: int, s0: int, s1: int, s2: int, o0: int, o1: int, o2: int, ms: i
         # probe the recency order (not otherwise observable within k steps): insert fresh keys
         # until the oldest entry has been evicted, then call every key once - all concrete,
         # identical on all sides, adds no paths
-        if ok and not symbolic and m.maxsize is not None and m.maxsize > 0:
+        if ok and not symbolic and m.maxsize is not None and 0 < m.maxsize <= 8:
             fresh = [((100 + i,), ()) for i in range(m.maxsize - len(m.d) + 1)]
             for pat in fresh + KEYS[:NKEY]:
                 ra, rs, rm = do_call(D, ca, cs, m, mode, pat, False, use_std and not used_discard)
@@ -541,7 +543,7 @@ def h_forms(sel: int):
 
 GRID = {
     "h_keys": lambda: [(p, q, t) for p in range(NP) for q in range(NP) for t in (False, True)],
-    "h_dyn": lambda: [(n, a, b, c, o0, o1, 0, (0 if not P("symbolic_ms", False) else ms), t) for n in range(4) for (a, b, c) in ((0, 1, 2), (2, 0, 3), (3, 2, 1)) for o0 in range(NOP) for o1 in range(0, NOP, 3) for ms in (-1, 0, 1, 2, 3, 9) for t in (False,) if (P("o0") in (None, o0)) and (ms == -1 or P("symbolic_ms", False))],
+    "h_dyn": lambda: [(n, a, b, c, o0, o1, 0, (0 if not P("symbolic_ms", False) else ms), t) for n in range(4) for (a, b, c) in ((0, 1, 2), (2, 0, 3), (3, 2, 1)) for o0 in range(NOP) for o1 in range(0, NOP, 3) for ms in (-1, 0, 1, 2, 3, 9) for t in (False,) if (P("o0") in (None, o0)) and (P("o0r") is None or P("o0r")[0] <= o0 <= P("o0r")[1]) and (ms == -1 or P("symbolic_ms", False)) and a < NKEY and b < NKEY and c < NKEY],
     "h_meth": lambda: [(w, a, b, c, 0) for w in range(3) for a in range(10) for b in range(10) for c in (0, 3, 6, 8)],
     "h_forms": lambda: [(i,) for i in range(10)],
 }
@@ -559,7 +561,8 @@ def jobs(tier):
     add("h_keys", ms=2)
     for ms in ("none", "neg", "zero", "one", "two", "three", "default"):
         if q:
-            add("h_dyn", ms=ms, K=2, PRE=3, NKEY=3, typed=False)
+            for o0r in ((0, 3), (4, 7), (8, 10)):
+                add("h_dyn", ms=ms, K=2, PRE=3, NKEY=3, typed=False, o0r=o0r)
         else:
             for o0 in range(14):
                 add("h_dyn", ms=ms, K=3, PRE=3, NKEY=4, o0=o0, typed=False)
